@@ -492,8 +492,36 @@ func (u *Upgrader) Upgrade(w http.ResponseWriter, r *http.Request, responseHeade
 		http.Error(w, "not a websocket handshake", http.StatusBadRequest)
 		return nil, errors.New("websocket: the client is not using the websocket protocol")
 	}
+	// the refusals of gorilla's Upgrade that a peer can provoke
+	if v := r.Header.Get("Sec-Websocket-Version"); v != "13" {
+		http.Error(w, "Bad Request", http.StatusBadRequest)
+		return nil, errors.New("websocket: unsupported version: 13 not found in 'Sec-Websocket-Version' header")
+	}
+	if _, ok := responseHeader["Sec-Websocket-Extensions"]; ok {
+		http.Error(w, "Internal Server Error", http.StatusInternalServerError)
+		return nil, errors.New("websocket: application specific 'Sec-WebSocket-Extensions' headers are unsupported")
+	}
 	return s, nil
 }
+
+// Handshake builds the upgrade request a raw client would send for urlStr (with extra header fields the
+// dialler itself would refuse to send, such as Sec-WebSocket-Extensions or another version) and the
+// client's end of the connection that results if the handler accepts it.
+func Handshake(ctx context.Context, urlStr string, extra http.Header) (*http.Request, *Conn) {
+	c, s := Pair("ws-client", "ws-server")
+	req, _ := http.NewRequest("GET", urlStr, nil)
+	req.Header.Set("Upgrade", "websocket")
+	req.Header.Set("Connection", "Upgrade")
+	req.Header.Set("Sec-Websocket-Version", "13")
+	req.Header.Set("Sec-Websocket-Key", "dGhlIHNhbXBsZSBub25jZQ==")
+	for k, v := range extra {
+		req.Header[k] = v
+	}
+	return req.WithContext(context.WithValue(ctx, upgradeKey{}, s)), c
+}
+
+// NullResponseWriter is a response writer for handlers reached through Handshake.
+func NullResponseWriter() http.ResponseWriter { return &nullRW{h: http.Header{}} }
 
 // ---- the rest of the Conn API, in terms of ReadMessage / WriteMessage ----
 
